@@ -4,6 +4,7 @@ CONSTANTS
   Conns <- TraceConns
   Configs <- TraceConfigs
   AllowDialFail = TRUE
+  AllowTLS = TRUE
   AllowEnv = TRUE
   CanonFresh = FALSE
   Nil = Nil
